@@ -322,6 +322,174 @@ func init() {
 		} else {
 			sb.WriteString(untranslatable("tailFilesCalls"))
 		}
+		// ---- wiring: which follow reader with which options, from the command line down to the constructors
+		const front = "pkg/followreader/followreader.go"
+		const builder = "cmd/helpers/extractorBuilder.go"
+		c.Fingerprint(front, "New")
+		c.Fingerprint(builder, "BuildBatcherFromArguments")
+		// followreader.New: the statements of its body, in source order
+		if fd := c.Func(front, "New"); fd != nil && fd.Body != nil {
+			var rows []string
+			for _, st := range fd.Body.List {
+				rows = append(rows, exprStr2(c, st))
+			}
+			fmt.Fprintf(&sb, "/-- the body of `followreader.New(filename, reopen, poll)`, statement by statement -/\ndef followNewBody : List String := %s\n\n", leanStrList(rows))
+			var ps []string
+			for _, f := range fd.Type.Params.List {
+				for _, n := range f.Names {
+					ps = append(ps, n.Name)
+				}
+			}
+			fmt.Fprintf(&sb, "/-- parameter names of `followreader.New`, in order -/\ndef followNewParams : List String := %s\n\n", leanStrList(ps))
+		} else {
+			sb.WriteString(untranslatable("followNewBody"))
+			sb.WriteString(untranslatable("followNewParams"))
+		}
+		// what the constructors do with `reopen`: the option field of the returned literal, the condition under which a
+		// failed Open is an error, and the parameter list
+		ctor := func(lean, file, fn string, fields ...string) {
+			fd := c.Func(file, fn)
+			if fd == nil || fd.Body == nil {
+				sb.WriteString(untranslatable(lean))
+				return
+			}
+			var rows []string
+			for _, f := range fd.Type.Params.List {
+				for _, n := range f.Names {
+					rows = append(rows, "param:"+n.Name)
+				}
+			}
+			for _, f := range fields {
+				if e := fieldOf(file, fn, f); e != nil {
+					rows = append(rows, f+":"+exprStr2(c, e))
+				} else {
+					rows = append(rows, f+":<missing>")
+				}
+			}
+			ast.Inspect(fd.Body, func(n ast.Node) bool {
+				if is, ok := n.(*ast.IfStmt); ok {
+					rows = append(rows, "if:"+exprStr2(c, is.Cond))
+				}
+				if ce, ok := n.(*ast.CallExpr); ok && exprStr2(c, ce.Fun) == "os.Open" {
+					rows = append(rows, "call:"+exprStr2(c, ce))
+				}
+				return true
+			})
+			fmt.Fprintf(&sb, "/-- `%s`: parameters, option fields of the returned reader, `os.Open` calls and `if` conditions -/\ndef %s : List String := %s\n\n", fn, lean, leanStrList(rows))
+		}
+		ctor("newNotifyWiring", notify, "NewNotify", "filename", "f", "ReOpen")
+		ctor("newPollingWiring", poller, "NewPolling", "filename", "f", "Reopen", "ReadAttempts", "PollDelay")
+		// TailFilesToChan: parameters and sync skeleton (one goroutine per file name, no semaphore: --readers does not apply)
+		if fd := c.Func(tailb, "TailFilesToChan"); fd != nil && fd.Body != nil {
+			var ps []string
+			for _, f := range fd.Type.Params.List {
+				for _, n := range f.Names {
+					ps = append(ps, n.Name)
+				}
+			}
+			fmt.Fprintf(&sb, "/-- parameter names of `TailFilesToChan`, in order -/\ndef tailFilesParams : List String := %s\n\n", leanStrList(ps))
+			fmt.Fprintf(&sb, "/-- sync skeleton of `TailFilesToChan` (goroutines, channel operations, loops, defers) -/\ndef tailFilesSkeleton : List String := %s\n\n", leanStrList(c.skeletonOf(fd.Body)))
+			// WaitGroup discipline and the calls around it, in source order
+			var wg []string
+			ast.Inspect(fd.Body, func(n ast.Node) bool {
+				if ce, ok := n.(*ast.CallExpr); ok {
+					f := exprStr2(c, ce.Fun)
+					switch f {
+					case "wg.Add", "wg.Done", "wg.Wait", "out.close", "out.stopFileReading", "out.startFileReading", "out.incErrors", "newBatcher":
+						wg = append(wg, exprStr2(c, ce))
+					}
+				}
+				return true
+			})
+			fmt.Fprintf(&sb, "/-- WaitGroup / bookkeeping calls of `TailFilesToChan`, in source order -/\ndef tailFilesBookkeeping : List String := %s\n\n", leanStrList(wg))
+		} else {
+			sb.WriteString(untranslatable("tailFilesParams"))
+			sb.WriteString(untranslatable("tailFilesSkeleton"))
+			sb.WriteString(untranslatable("tailFilesBookkeeping"))
+		}
+		// the command line: the follow variables of BuildBatcherFromArguments, its conditions and the TailFilesToChan call
+		if fd := c.Func(builder, "BuildBatcherFromArguments"); fd != nil && fd.Body != nil {
+			var vars, calls, fatals []string
+			ast.Inspect(fd.Body, func(n ast.Node) bool {
+				switch v := n.(type) {
+				case *ast.ValueSpec:
+					for i, nm := range v.Names {
+						if strings.HasPrefix(nm.Name, "follow") && i < len(v.Values) {
+							vars = append(vars, nm.Name+"="+exprStr2(c, v.Values[i]))
+						}
+					}
+				case *ast.CallExpr:
+					f := exprStr2(c, v.Fun)
+					if f == "batchers.TailFilesToChan" {
+						calls = append(calls, exprStr2(c, v))
+					}
+				case *ast.IfStmt:
+					// an `if` whose body is a single fatal exit: (condition, exit code)
+					if len(v.Body.List) == 1 {
+						if es, ok := v.Body.List[0].(*ast.ExprStmt); ok {
+							if ce, ok := es.X.(*ast.CallExpr); ok && strings.HasPrefix(exprStr2(c, ce.Fun), "logger.Fatal") && len(ce.Args) > 0 &&
+								strings.Contains(exprStr2(c, v.Cond), "follow") {
+								fatals = append(fatals, exprStr2(c, v.Cond)+"=>"+exprStr2(c, ce.Args[0]))
+							}
+						}
+					}
+				}
+				return true
+			})
+			fmt.Fprintf(&sb, "/-- the follow variables of `BuildBatcherFromArguments` (cmd/helpers), in source order -/\ndef cliFollowVars : List String := %s\n\n", leanStrList(vars))
+			fmt.Fprintf(&sb, "/-- `if <cond> { logger.Fatal…(<code>, …) }` of `BuildBatcherFromArguments`: \"cond=>code\", in source order -/\ndef cliFatals : List String := %s\n\n", leanStrList(fatals))
+			fmt.Fprintf(&sb, "/-- the `TailFilesToChan` call(s) of `BuildBatcherFromArguments` -/\ndef cliBatcherCalls : List String := %s\n\n", leanStrList(calls))
+			// the `if` conditions that decide between stdin / follow / plain files (those that mention follow or the arguments)
+			var cs []string
+			ast.Inspect(fd.Body, func(n ast.Node) bool {
+				if is, ok := n.(*ast.IfStmt); ok {
+					cnd := exprStr2(c, is.Cond)
+					if strings.Contains(cnd, "follow") || strings.Contains(cnd, "fileglobs") {
+						cs = append(cs, cnd)
+					}
+				}
+				return true
+			})
+			fmt.Fprintf(&sb, "/-- the `if` conditions of `BuildBatcherFromArguments` that mention the follow variables or the arguments, in source order -/\ndef cliBatcherConds : List String := %s\n\n", leanStrList(cs))
+		} else {
+			sb.WriteString(untranslatable("cliFollowVars"))
+			sb.WriteString(untranslatable("cliFatals"))
+			sb.WriteString(untranslatable("cliBatcherCalls"))
+			sb.WriteString(untranslatable("cliBatcherConds"))
+		}
+		// the four follow flags: name and aliases
+		if fd := c.Func(builder, "getExtractorFlags"); fd != nil && fd.Body != nil {
+			var flags []string
+			ast.Inspect(fd.Body, func(n ast.Node) bool {
+				cl, ok := n.(*ast.CompositeLit)
+				if !ok || exprStr2(c, cl.Type) != "cli.BoolFlag" {
+					return true
+				}
+				name, aliases := "", ""
+				for _, el := range cl.Elts {
+					if kv, ok := el.(*ast.KeyValueExpr); ok {
+						switch exprStr2(c, kv.Key) {
+						case "Name":
+							name, _ = StringLit(kv.Value)
+						case "Aliases":
+							if l, ok := StringList(kv.Value); ok {
+								aliases = strings.Join(l, ",")
+							} else {
+								aliases = "?"
+							}
+						}
+					}
+				}
+				switch name {
+				case "follow", "reopen", "poll", "tail":
+					flags = append(flags, name+":"+aliases)
+				}
+				return true
+			})
+			fmt.Fprintf(&sb, "/-- the follow flags of the extractor commands: \"name:aliases\" -/\ndef cliFollowFlags : List String := %s\n\n", leanStrList(flags))
+		} else {
+			sb.WriteString(untranslatable("cliFollowFlags"))
+		}
 		sb.WriteString("end Rare.Gen.C15\n")
 		return sb.String()
 	})
